@@ -534,6 +534,15 @@ func (th *Thread) callFn(caller *frame, fn *ssa.Function, args []Value, env []Va
 		}
 		panic(unsupported{"call into " + in.name})
 	}
+	if w.inInit == 0 && fn.Pkg != nil {
+		pp := fn.Pkg.Pkg.Path()
+		if (w.initFailed[pp] || (e.NoInit[pp] && !initTolerated[pp])) && e.touchesPkgGlobals(fn) {
+			// the package's initialiser did not run (completely): a function
+			// that reads its package-level variables may silently misbehave,
+			// so refuse instead of guessing
+			panic(unsupported{"function " + in.name + " depends on package-level state of " + pp + ", whose initialiser was not (fully) executed"})
+		}
+	}
 	if w.inInit > 0 && caller != nil {
 		// during package initialisation a callee the engine cannot execute
 		// yields zero values (recorded) instead of abandoning the whole init
@@ -549,6 +558,12 @@ func (th *Thread) callLenient(caller *frame, fn *ssa.Function, in *fnInfo, args 
 	depth, top := th.depth, th.top
 	defer func() {
 		if r := recover(); r != nil {
+			if fn.Pkg != nil {
+				w.markInitFailed(fn.Pkg.Pkg.Path())
+			}
+			if caller != nil && caller.fn.Pkg != nil {
+				w.markInitFailed(caller.fn.Pkg.Pkg.Path())
+			}
 			switch r := r.(type) {
 			case unsupported:
 				w.res.InitWarnings[in.name+": "+r.what+" (zero result during init)"]++
@@ -1226,6 +1241,7 @@ func (th *Thread) initCall(fr *frame, ins *ssa.Call) (res Value) {
 	depth, top := th.depth, th.top
 	defer func() {
 		if r := recover(); r != nil {
+			w.markInitFailed(fr.fn.Pkg.Pkg.Path())
 			switch r := r.(type) {
 			case *GoPanic:
 				w.res.InitWarnings[fr.fn.Pkg.Pkg.Path()+": panic in initialiser call "+ins.Call.String()+": "+th.panicString(r)]++
@@ -1240,4 +1256,85 @@ func (th *Thread) initCall(fr *frame, ins *ssa.Call) (res Value) {
 	}()
 	fnv, args := th.prepareCall(fr, &ins.Call)
 	return th.call(fr, fnv, args)
+}
+
+// initTolerated lists packages whose initialiser is known to fail harmlessly
+// (the affected variables are only used by functions the engine replaces).
+var initTolerated = map[string]bool{
+	"errors":               true, // errorType (reflectlite) is used by errors.As only: intrinsic
+	"internal/reflectlite": true,
+	"reflect":              true,
+	"internal/abi":         true,
+	"os":                   true, // std streams / runtime hooks; file operations are stubs
+	"time":                 true, // local time zone, runtime nanotime: time is modelled
+	"sync":                 true,
+	"context":              true,
+}
+
+func (w *Worker) markInitFailed(path string) {
+	if initTolerated[path] {
+		return
+	}
+	if w.initFailed == nil {
+		w.initFailed = map[string]bool{}
+	}
+	w.initFailed[path] = true
+}
+
+// touchesPkgGlobals reports whether fn (or a function of the same package it
+// calls statically) refers to a package-level variable of its own package.
+func (e *Engine) touchesPkgGlobals(fn *ssa.Function) bool {
+	e.infoMu.Lock()
+	if e.globUse == nil {
+		e.globUse = map[*ssa.Function]int8{}
+	}
+	v, ok := e.globUse[fn]
+	e.infoMu.Unlock()
+	if ok {
+		return v == 1
+	}
+	seen := map[*ssa.Function]bool{}
+	var visit func(f *ssa.Function, depth int) bool
+	visit = func(f *ssa.Function, depth int) bool {
+		if seen[f] || depth > 6 {
+			return false
+		}
+		seen[f] = true
+		var ops []*ssa.Value
+		for _, b := range f.Blocks {
+			for _, ins := range b.Instrs {
+				ops = ins.Operands(ops[:0])
+				for _, op := range ops {
+					if op == nil || *op == nil {
+						continue
+					}
+					switch x := (*op).(type) {
+					case *ssa.Global:
+						if x.Pkg == fn.Pkg && !strings.HasPrefix(x.Name(), "init$") {
+							return true
+						}
+					case *ssa.Function:
+						if x.Pkg == fn.Pkg && intrinsics[x.String()] == nil && visit(x, depth+1) {
+							return true
+						}
+					}
+				}
+			}
+		}
+		for _, af := range f.AnonFuncs {
+			if visit(af, depth+1) {
+				return true
+			}
+		}
+		return false
+	}
+	r := visit(fn, 0)
+	e.infoMu.Lock()
+	if r {
+		e.globUse[fn] = 1
+	} else {
+		e.globUse[fn] = 0
+	}
+	e.infoMu.Unlock()
+	return r
 }
